@@ -513,4 +513,331 @@ theorem encU_lt (xs : List Nat) (hx : ∀ x ∈ xs, x < 2 ^ 64) : ∀ b ∈ Delt
     · exact field_lt x (hx x (by simp)) b h
     · exact deltas_lt xs x b h
 
+
+/-! ### the signed entry points: varintDeltaEncode / varintDeltaDecode
+
+C's `values[i] - prev` is a signed subtraction: it is defined (and translated as the mathematical difference) exactly
+when the difference is representable — the property's own premise for the signed codec. -/
+
+theorem widthEncS : ∀ (f v e : Nat), extLen v ≤ f → e + extLen v < 2 ^ 32 →
+    deltaEncode_loop1 f (v, e) = .done (0, e + extLen v - 1) := by
+  intro f
+  induction f with
+  | zero => intro v e h; have := extLen_pos v; omega
+  | succ f ih =>
+    intro v e hf he
+    unfold deltaEncode_loop1
+    simp only [Nat.reducePow]
+    rw [extLen_eq] at hf he ⊢
+    by_cases c : v < 256
+    · have h0 : v / 256 = 0 := by omega
+      simp only [h0, if_pos c, ne_eq, not_true_eq_false, if_false]
+      rw [Nat.add_sub_cancel]
+    · simp only [if_neg c] at hf he ⊢
+      have h0 : v / 256 ≠ 0 := by omega
+      rw [if_pos h0]
+      have hp := extLen_pos (v / 256)
+      rw [Nat.mod_eq_of_lt (by omega)]
+      rw [ih (v / 256) (e + 1) (by omega) (by omega)]
+      congr 2
+      omega
+
+/-- every difference of neighbours (as int64) is representable in int64 -/
+def DiffsOK : Nat → List Nat → Prop
+  | _, [] => True
+  | prev, x :: xs => (-(2 ^ 63 : Int) ≤ toI64 x - toI64 prev ∧ toI64 x - toI64 prev < (2 ^ 63 : Int)) ∧ DiffsOK x xs
+
+theorem toI64_sub64 (x p : Nat) (hx : x < 2 ^ 64) (hp : p < 2 ^ 64)
+    (h : -(2 ^ 63 : Int) ≤ toI64 x - toI64 p ∧ toI64 x - toI64 p < (2 ^ 63 : Int)) :
+    toI64 x - toI64 p = toI64 (Delta.sub64 x p) := by
+  unfold toI64 Delta.sub64 at *
+  rw [Nat.mod_eq_of_lt hx, Nat.mod_eq_of_lt hp] at *
+  have hm : (x + 2 ^ 64 - p) % 2 ^ 64 % 2 ^ 64 = (x + 2 ^ 64 - p) % 2 ^ 64 := Nat.mod_mod _ _
+  rw [hm]
+  split at h <;> split at h <;> split <;> omega
+
+theorem encodeS_loop (xs : List Nat) (hx : ∀ x ∈ xs, x < 2 ^ 64) (hn : xs.length < 2 ^ 60) :
+    ∀ (rest : List Nat) (fuel i prev : Nat) (ws : List (Nat × Nat)) (bs : List Nat),
+      xs.drop i = rest → i ≤ xs.length → prev < 2 ^ 64 → DiffsOK prev rest → Writes ws bs → rest.length + 9 ≤ fuel →
+      ∃ prev' ws', deltaEncode_loop2 (Bridge.Tagged.bufOf xs) xs.length fuel (i, bs.length, toI64 prev, ws) =
+          .done (xs.length, bs.length + (Delta.deltas prev rest).length, prev', ws') ∧
+        Writes ws' (bs ++ Delta.deltas prev rest) := by
+  intro rest
+  induction rest with
+  | nil =>
+    intro fuel i prev ws bs hd hi hp _ hw hf
+    have hil : i = xs.length := by
+      have := List.drop_eq_nil_iff.1 hd; omega
+    subst hil
+    obtain ⟨fuel, rfl⟩ : ∃ g, fuel = g + 1 := ⟨fuel - 1, by omega⟩
+    refine ⟨toI64 prev, ws, ?_, by simpa [Delta.deltas] using hw⟩
+    unfold deltaEncode_loop2
+    simp [Delta.deltas]
+  | cons x rest ih =>
+    intro fuel i prev ws bs hd hi hp hok hw hf
+    simp only [List.length_cons] at hf
+    obtain ⟨fuel, rfl⟩ : ∃ g, fuel = g + 1 := ⟨fuel - 1, by omega⟩
+    have hil : i < xs.length := by
+      have : (xs.drop i).length = rest.length + 1 := by rw [hd]; rfl
+      rw [List.length_drop] at this; omega
+    have hxi : Bridge.Tagged.bufOf xs i = x := Bridge.RLE.bufOf_drop xs i x rest hd
+    have hd' : xs.drop (i + 1) = rest := Bridge.RLE.drop_succ_of_drop xs i x rest hd
+    have hxlt : x < 2 ^ 64 := hx x (by
+      have : x ∈ xs.drop i := by rw [hd]; simp
+      exact List.mem_of_mem_drop this)
+    have hi1 : (i + 1) % 2 ^ 64 = i + 1 := Nat.mod_eq_of_lt (by omega)
+    unfold deltaEncode_loop2
+    simp only [if_pos hil, hxi]
+    rw [Bridge.External.sx64_eq x hxlt, toI64_sub64 x prev hxlt hp hok.1]
+    have hs64 := Delta.sub64_lt x prev
+    obtain ⟨st, hput, hwr⟩ := deltaPut_eq (Delta.sub64 x prev) fuel hs64 (by omega)
+    rw [hput]
+    simp only [hi1]
+    have hcomb := writes_append ws st bs (Delta.put (Delta.sub64 x prev)) hw hwr
+    obtain ⟨prev', ws', h, hw'⟩ := ih fuel (i + 1) x (ws ++ shiftW bs.length st)
+      (bs ++ Delta.put (Delta.sub64 x prev)) hd' (by omega) hxlt hok.2 hcomb (by omega)
+    refine ⟨prev', ws', ?_, ?_⟩
+    · rw [List.length_append] at h
+      rw [h]
+      simp [Delta.deltas, Nat.add_assoc]
+    · simpa [Delta.deltas, List.append_assoc] using hw'
+
+/-- **`varintDeltaEncode(output, values, count)`** (signed) for every array of int64 patterns whose neighbouring
+    differences are representable (the codec's documented domain), count < 2^60, every fuel ≥ count + 9 -/
+theorem deltaEncode_eq (xs : List Nat) (hx : ∀ x ∈ xs, x < 2 ^ 64) (hn : xs.length < 2 ^ 60)
+    (hok : ∀ b t, xs = b :: t → DiffsOK b t) (fuel : Nat) (hf : xs.length + 9 ≤ fuel) :
+    ∃ stores, deltaEncode fuel (Bridge.Tagged.bufOf xs) xs.length = some ((Delta.encS xs).length, stores) ∧
+      Writes stores (Delta.encS xs) := by
+  unfold deltaEncode
+  cases xs with
+  | nil => exact ⟨[], by simp [Delta.encS], by simp [Delta.encS, Writes, applyStores]⟩
+  | cons b t =>
+    have hne : ¬ ((b :: t).length = 0) := by simp
+    rw [if_neg hne]
+    have h0 : Bridge.Tagged.bufOf (b :: t) 0 = b := rfl
+    have hb : b < 2 ^ 64 := hx b (by simp)
+    simp only [h0]
+    rw [Bridge.External.sx64_eq b hb, Bridge.Sizes.deltaZigZag_eq b hb]
+    have hz := Delta.zz_lt b hb
+    have h8 := extLen_le_8 hz
+    have h1 := extLen_pos (Delta.zz b)
+    rw [widthEncS fuel (Delta.zz b) 1 (by omega) (by omega)]
+    simp only [show 1 + extLen (Delta.zz b) - 1 = extLen (Delta.zz b) by omega]
+    have hfw := field_writes (Delta.zz b) hz
+    have hfl : (Delta.field (Delta.zz b)).length = 1 + extLen (Delta.zz b) := Delta.field_length _
+    obtain ⟨prev', ws', h, hw'⟩ := encodeS_loop (b :: t) hx hn t fuel 1 b _ (Delta.field (Delta.zz b)) (by simp) (by simp)
+      hb (hok b t rfl) hfw (by simp at hf ⊢; omega)
+    rw [hfl] at h
+    simp only [List.singleton_append]
+    rw [h]
+    simp only []
+    refine ⟨ws', ?_, by simpa [Delta.encS] using hw'⟩
+    have hle := Delta.encS_length_le (b :: t) hx
+    have hlen : (Delta.encS (b :: t)).length = 1 + extLen (Delta.zz b) + (Delta.deltas b t).length := by
+      simp [Delta.encS, hfl]
+    rw [hlen]
+    have hm : Delta.maxSize (b :: t).length ≤ 9 * (b :: t).length := by
+      unfold Delta.maxSize; simp; omega
+    have : 1 + extLen (Delta.zz b) + (Delta.deltas b t).length < 2 ^ 64 := by
+      rw [← hlen]; simp only [List.length_cons] at hle hm hn ⊢; omega
+    congr 2
+    omega
+
+
+/-- the element loop of the signed decoder: the running value (an `int64_t`, mathematically) keeps the model's pattern
+    modulo 2^64 -/
+theorem decodeS_loop (bs : List Nat) (hb : ∀ b ∈ bs, b < 256) (count : Nat) (hc : count < 2 ^ 63) :
+    ∀ (n fuel i p cur : Nat) (curI : Int) (ws : List (Nat × Nat)) (vs tail : List Nat), i + n = count →
+      (curI % (2 ^ 64 : Int)).toNat = cur → cur < 2 ^ 64 → n + 1 ≤ fuel → p ≤ bs.length →
+      Delta.decDeltas n cur (bs.drop p) = some (vs, tail) →
+      ∃ cur', deltaDecode_loop1 (Bridge.Tagged.bufOf bs) count fuel (i, p, curI, ws) =
+          .done (count, bs.length - tail.length, cur', ws ++ storesFrom i vs) ∧ tail.length ≤ bs.length - p := by
+  intro n
+  induction n with
+  | zero =>
+    intro fuel i p cur curI ws vs tail hi hci hcur hf hp h
+    obtain ⟨fuel, rfl⟩ : ∃ g, fuel = g + 1 := ⟨fuel - 1, by omega⟩
+    simp only [Delta.decDeltas, Option.some.injEq, Prod.mk.injEq] at h
+    obtain ⟨rfl, rfl⟩ := h
+    refine ⟨curI, ?_, by simp⟩
+    unfold deltaDecode_loop1
+    have : ¬ i < count := by omega
+    rw [if_neg this]
+    have hl : bs.length - (bs.drop p).length = p := by rw [List.length_drop]; omega
+    rw [hl]
+    simp
+    omega
+  | succ n ih =>
+    intro fuel i p cur curI ws vs tail hi hci hcur hf hp h
+    obtain ⟨fuel, rfl⟩ : ∃ g, fuel = g + 1 := ⟨fuel - 1, by omega⟩
+    unfold Delta.decDeltas at h
+    cases hg : Delta.getField (bs.drop p) with
+    | none => rw [hg] at h; simp at h
+    | some r =>
+      obtain ⟨z, rest⟩ := r
+      rw [hg] at h
+      simp only [] at h
+      obtain ⟨k, hget, hrest, hk9, hz⟩ := deltaGet_eq (bs.drop p) (Bridge.RLE.mem_drop_lt bs hb p) z rest hg
+      cases hrec : Delta.decDeltas n ((cur + Delta.unzz z) % 2 ^ 64) rest with
+      | none => rw [hrec] at h; simp at h
+      | some q =>
+        obtain ⟨vs', tail'⟩ := q
+        rw [hrec] at h
+        simp only [Option.some.injEq, Prod.mk.injEq] at h
+        obtain ⟨rfl, rfl⟩ := h
+        unfold deltaDecode_loop1
+        have hlt : i < count := by omega
+        rw [if_pos hlt, Bridge.RLE.bufOf_shift, hget]
+        simp only [Option.getD_some]
+        have hu := Delta.unzz_lt z hz
+        rw [Bridge.External.sx64_eq _ hu]
+        have hi1 : (i + 1) % 2 ^ 64 = i + 1 := Nat.mod_eq_of_lt (by omega)
+        simp only [hi1]
+        have hrest' : rest = bs.drop (p + k) := by rw [hrest, List.drop_drop]
+        rw [hrest'] at hrec
+        have hpk : p + k ≤ bs.length := by
+          have hl : (bs.drop p).length = bs.length - p := List.length_drop
+          cases hbd : bs.drop p with
+          | nil => rw [hbd] at hg; simp [Delta.getField] at hg
+          | cons w t =>
+            rw [hbd] at hg hget hl
+            unfold Delta.getField at hg
+            simp only [] at hg
+            by_cases c : 1 ≤ w ∧ w ≤ 8
+            · rw [if_pos c] at hg
+              cases ht : takeExact w t with
+              | none => rw [ht] at hg; simp at hg
+              | some pl =>
+                have hwl : w ≤ t.length := by
+                  unfold takeExact at ht
+                  split at ht
+                  · assumption
+                  · simp at ht
+                have hk : k = 1 + w := by
+                  unfold deltaGet at hget
+                  simp only [Prod.mk.injEq] at hget
+                  have h0 : Bridge.Tagged.bufOf (w :: t) 0 = w := rfl
+                  rw [h0] at hget
+                  omega
+                simp only [List.length_cons] at hl
+                omega
+            · rw [if_neg c] at hg; simp at hg
+        -- the new running value keeps the pattern
+        have hpat : ((curI + toI64 (Delta.unzz z)) % (2 ^ 64 : Int)).toNat = (cur + Delta.unzz z) % 2 ^ 64 := by
+          have h1 := toU64_toI64 (Delta.unzz z) hu
+          omega
+        obtain ⟨cur', hl, htl⟩ := ih fuel (i + 1) (p + k) ((cur + Delta.unzz z) % 2 ^ 64)
+          (curI + toI64 (Delta.unzz z)) (ws ++ [(i, (cur + Delta.unzz z) % 2 ^ 64)]) vs' tail' (by omega) hpat
+          (Nat.mod_lt _ (by omega)) (by omega) hpk hrec
+        refine ⟨cur', ?_, by omega⟩
+        rw [hpat, hl]
+        simp [List.append_assoc]
+
+
+/-- **`varintDeltaDecode(input, count, output)`** (signed) on any readable bytes, count < 2^63, every fuel ≥ count + 1:
+    the C stores the model's values at output[0], output[1], … (each once, in order) and returns the number of bytes the
+    model consumed -/
+theorem deltaDecode_eq (bs : List Nat) (hb : ∀ b ∈ bs, b < 256) (hbl : bs.length < 2 ^ 63) (count : Nat)
+    (hc : count < 2 ^ 63) (vs : List Nat) (used : Nat) (h : Delta.decS count bs = some (vs, used)) (fuel : Nat) (hf : count + 1 ≤ fuel) :
+    deltaDecode fuel (Bridge.Tagged.bufOf bs) count = some (used, storesFrom 0 vs) := by
+  unfold deltaDecode
+  cases count with
+  | zero =>
+    simp only [Delta.decS, Option.some.injEq, Prod.mk.injEq] at h
+    obtain ⟨rfl, rfl⟩ := h
+    simp
+  | succ n =>
+    have hne : ¬ (n + 1 = 0) := by omega
+    rw [if_neg hne]
+    unfold Delta.decS at h
+    cases hg : Delta.getField bs with
+    | none => rw [hg] at h; simp at h
+    | some r =>
+      obtain ⟨b, rest⟩ := r
+      rw [hg] at h
+      simp only [] at h
+      cases hrec : Delta.decDeltas n (Delta.unzz b) rest with
+      | none => rw [hrec] at h; simp at h
+      | some q =>
+        obtain ⟨vs', tail⟩ := q
+        rw [hrec] at h
+        simp only [Option.some.injEq, Prod.mk.injEq] at h
+        obtain ⟨rfl, rfl⟩ := h
+        -- the base field, read directly (no zig-zag)
+        cases bs with
+        | nil => simp [Delta.getField] at hg
+        | cons w t =>
+          unfold Delta.getField at hg
+          simp only [] at hg
+          by_cases c : 1 ≤ w ∧ w ≤ 8
+          · rw [if_pos c] at hg
+            cases ht : takeExact w t with
+            | none => rw [ht] at hg; simp at hg
+            | some pl =>
+              rw [ht] at hg
+              simp only [Option.some.injEq, Prod.mk.injEq] at hg
+              obtain ⟨hbv, hrest⟩ := hg
+              have hlen : w ≤ t.length ∧ pl = t.take w := by
+                unfold takeExact at ht
+                split at ht
+                · exact ⟨by assumption, by simpa using ht.symm⟩
+                · simp at ht
+              have hp0 : Bridge.Tagged.bufOf (w :: t) 0 = w := rfl
+              have hrb : ∀ i, i < w → Bridge.Tagged.bufOf (w :: t) (1 + i) < 256 :=
+                fun i _ => Bridge.Tagged.bufOf_lt (w :: t) hb (1 + i)
+              have hpl : pl = (List.range w).map (fun i => Bridge.Tagged.bufOf (w :: t) (1 + i)) := by
+                rw [hlen.2]
+                apply List.ext_getElem
+                · simp; omega
+                · intro i h1' h2'
+                  simp only [List.getElem_take, List.getElem_map, List.getElem_range]
+                  unfold Bridge.Tagged.bufOf
+                  rw [show 1 + i = i + 1 by omega]
+                  simp only [List.getD_eq_getElem?_getD, List.getElem?_cons_succ]
+                  rw [List.getElem?_eq_getElem (by simp at h1'; omega)]
+                  rfl
+              have hblt : b < 2 ^ 64 := by
+                rw [← hbv, hpl]
+                have := ofLe_lt ((List.range w).map (fun i => Bridge.Tagged.bufOf (w :: t) (1 + i))) (by
+                  intro x hxm
+                  simp only [List.mem_map, List.mem_range] at hxm
+                  obtain ⟨i, hi, rfl⟩ := hxm
+                  exact hrb i hi)
+                simp only [List.length_map, List.length_range] at this
+                exact Nat.lt_of_lt_of_le this (by
+                  calc 256 ^ w ≤ 256 ^ 8 := Nat.pow_le_pow_right (by omega) c.2
+                    _ = 2 ^ 64 := by decide)
+              simp only [hp0]
+              rw [extGet_eq _ w c.1 c.2 hrb, ← hpl, hbv, Bridge.Sizes.deltaZigZagDecode_eq b hblt,
+                toU64_toI64 _ (Delta.unzz_lt b hblt)]
+              have hrest' : rest = (w :: t).drop (1 + w) := by
+                rw [← hrest]; simp [Nat.add_comm]
+              rw [hrest'] at hrec
+              obtain ⟨cur', hl, htl⟩ := decodeS_loop (w :: t) hb (n + 1) hc n fuel 1 (1 + w) (Delta.unzz b)
+                (toI64 (Delta.unzz b)) [(0, Delta.unzz b)] vs' tail
+                (by omega) (toU64_toI64 _ (Delta.unzz_lt b hblt)) (Delta.unzz_lt b hblt) (by omega) (by simp; omega) hrec
+              rw [hl]
+              simp only []
+              have hu : ((((((w :: t).length - tail.length : Nat) : Int) - ((0 : Nat) : Int))) % (2 ^ 64 : Int)).toNat
+                  = (w :: t).length - tail.length := by
+                have := List.length_cons (a := w) (as := t)
+                simp only [List.length_cons] at hbl
+                omega
+              rw [hu]
+              simp
+          · rw [if_neg c] at hg; simp at hg
+
+
+
+
+theorem encS_lt (xs : List Nat) (hx : ∀ x ∈ xs, x < 2 ^ 64) : ∀ b ∈ Delta.encS xs, b < 256 := by
+  cases xs with
+  | nil => intro b hb; simp [Delta.encS] at hb
+  | cons x xs =>
+    intro b hb
+    unfold Delta.encS at hb
+    rcases List.mem_append.1 hb with h | h
+    · exact field_lt _ (Delta.zz_lt x (hx x (by simp))) b h
+    · exact deltas_lt xs x b h
+
 end Varint.Bridge.Delta
